@@ -1387,4 +1387,61 @@ theorem exU_rightTri_collision_raises :
     simp only [Properties.C04.exU, List.mem_cons, List.not_mem_nil, or_false] at he
     rcases he with rfl | rfl | rfl | rfl | rfl | rfl <;> decide +kernel
 
+/-! ### a date requested twice -/
+
+/-- **rightDiag_duplicate_dates_cumulative**: `make_right_diagonal` (default flag) on a cumulative / plain `Cell` triangle
+does NOT deduplicate the requested dates: when the call returns and a date `d` is listed twice (`[d, d]` is a sublist of
+`dates`), is not before the period start of an observed cell `x` and lies after every observation of `x`'s slice, the
+result contains one cell twice (`¬ out.Nodup`; the clause `nodup` of the Spec is stated under `dates.Nodup`). Confirmed on
+/repo: the call returns two equal empty cells and warns `DuplicateCellWarning`; model and library agree. On INCREMENTAL
+input the same request raises `ValueError` in the library and in the model (`to_incremental` links the second copy to the
+first: `evaluation_date <= prev_evaluation_date`) — observed through the driver, not stated as a theorem. -/
+theorem rightDiag_duplicate_dates_cumulative {t out : List Cell} {dates : List Date}
+    (hinc : Triangle.isIncremental t = false) (h : makeRightDiagonal t dates false = .ok out)
+    {x : Cell} {d : Date} (hx : x ∈ t) (hdup : List.Sublist [d, d] dates) (hle : x.ps ≤ d)
+    (hafter : ∀ o ∈ t, o.md = x.md → o.ev < d) : ¬ out.Nodup :=
+  makeRightDiagonal_dup_cum hinc h hx hdup hle hafter
+
+/-- closed instance: `exCells` with 2020-12-31 requested twice — the model returns and the result has a repeated cell -/
+theorem exCells_rightDiag_duplicate_dates :
+    ∃ out, makeRightDiagonal exCells [⟨2020, 12, 31⟩, ⟨2020, 12, 31⟩] false = .ok out ∧ ¬ out.Nodup := by
+  obtain ⟨out, h⟩ := makeRightDiagonal_ok (t := exCells) (dates := [⟨2020, 12, 31⟩, ⟨2020, 12, 31⟩])
+    (hist := false) (by decide +kernel) rfl (by decide +kernel)
+  exact ⟨out, h, rightDiag_duplicate_dates_cumulative rfl h (x := exCells[0]) (d := ⟨2020, 12, 31⟩)
+    (by decide +kernel) (List.Sublist.refl _) (by decide +kernel) (by decide +kernel)⟩
+
+/-! ### two requested day lags floored onto one date (cumulative input) -/
+
+/-- **rightTri_duplicate_lags_cumulative**: `make_right_triangle(ls, "day")` on a cumulative / plain `Cell` triangle does
+not deduplicate by DATE: when the call returns and two requested lags `l1`, `l2` (in this order in `ls`), both beyond every lag
+of the row of an observed cell `x`, are floored by `date + timedelta` onto the same date, the result contains one cell twice
+(`¬ out.Nodup`; the clause `nodup` of the Spec is stated under `LagInj`). Confirmed on /repo (`[30.2, 30.7]` days: two equal
+empty cells at 2020-03-01, `DuplicateCellWarning`); model and library agree. On INCREMENTAL input the same request raises
+`ValueError` in the library and in the model (`to_incremental`: `evaluation_date <= prev_evaluation_date` for the second
+copy) — observed through the driver, not stated as a theorem. -/
+theorem rightTri_duplicate_lags_cumulative {t out : List Cell} {ls : List Rat}
+    (hinc : Triangle.isIncremental t = false) (h : makeRightTriangleU t (some ls) (some .day) = .ok out)
+    {x : Cell} {l1 l2 : Rat} (hx : x ∈ t) (hdup : List.Sublist [l1, l2] ls)
+    (hgt : ∀ o ∈ t, rowKey o = rowKey x → l1 > o.devLag .day ∧ l2 > o.devLag .day)
+    (hsame : x.pe.addDays l1.floor = x.pe.addDays l2.floor) : ¬ out.Nodup :=
+  makeRightTriangle_dup_cum_day hinc h hx hdup hgt hsame
+
+/-- closed instance: `exCells` with the day lags 100.2 and 100.7 — the model returns and the result has a repeated cell -/
+theorem exCells_rightTri_duplicate_lags :
+    ∃ out, makeRightTriangleU exCells (some [(501 : Rat) / 5, (1007 : Rat) / 10]) (some .day) = .ok out ∧
+      ¬ out.Nodup := by
+  obtain ⟨out, h⟩ : ∃ out, makeRightTriangleU exCells (some [(501 : Rat) / 5, (1007 : Rat) / 10]) (some .day)
+      = .ok out := by
+    apply makeRightTriangle_ok (by decide) (by decide +kernel) rfl
+    intro e he l hl hgt ev hev
+    rcases hl with ⟨ls, hls, hl⟩ | ⟨hn, _⟩
+    · cases hls
+      cases hev
+      simp only [List.mem_cons, List.not_mem_nil, or_false] at hl
+      simp only [exCells, List.mem_cons, List.not_mem_nil, or_false] at he
+      rcases he with rfl | rfl | rfl <;> rcases hl with rfl | rfl <;> decide +kernel
+    · cases hn
+  exact ⟨out, h, rightTri_duplicate_lags_cumulative rfl h (x := exCells[0]) (l1 := (501 : Rat) / 5)
+    (l2 := (1007 : Rat) / 10) (by decide +kernel) (List.Sublist.refl _) (by decide +kernel) (by decide +kernel)⟩
+
 end Bermuda.Properties.C15
